@@ -81,10 +81,12 @@ func LineOf(items []Item, a, b int, width float64, p Params) Line {
 	switch {
 	case l.Width < width:
 		if l.Stretch == 0 {
+			// an unstretchable short line: a pseudo-ratio in (Inf, 2*Inf] that grows with the shortfall, so
+			// that shorter and longer such lines can be told apart (not capped)
 			l.Ratio = p.Inf * (1 + (width-l.Width)/width)
-		} else {
-			l.Ratio = (width - l.Width) / l.Stretch
+			return l
 		}
+		l.Ratio = (width - l.Width) / l.Stretch
 	case l.Width > width:
 		l.Ratio = (width - l.Width) / l.Shrink
 	}
